@@ -59,3 +59,138 @@ pub unsafe extern "C" fn getrandom(buf: *mut libc::c_void, len: libc::size_t, fl
         _ => libc::syscall(libc::SYS_getrandom, buf, len, flags) as libc::ssize_t,
     }
 }
+
+// ---------------------------------------------------------------------------------------------------------------
+// Exit-time scan (C20 at process level): with KV_SCAN_HEX = 64 hex digits (several, comma-separated) and KV_SCAN_LOG =
+// path, the writable heap mappings of the process ("[heap]" and anonymous rw mappings; not the stacks, not file-backed
+// data) are searched for those 32-byte strings when the process calls exit(); one line per hit is appended to the log.
+
+unsafe fn hexval(c: u8) -> Option<u8> {
+    match c {
+        b'0'..=b'9' => Some(c - b'0'),
+        b'a'..=b'f' => Some(c - b'a' + 10),
+        b'A'..=b'F' => Some(c - b'A' + 10),
+        _ => None,
+    }
+}
+
+unsafe fn log_line(msg: &[u8]) {
+    if let Some(path) = env(b"KV_SCAN_LOG\0") {
+        let mut p = [0u8; 512];
+        let n = path.len().min(510);
+        p[..n].copy_from_slice(&path[..n]);
+        let fd = libc::open(p.as_ptr() as *const libc::c_char, libc::O_WRONLY | libc::O_CREAT | libc::O_APPEND, 0o600);
+        if fd >= 0 {
+            libc::write(fd, msg.as_ptr() as *const libc::c_void, msg.len());
+            libc::write(fd, b"\n".as_ptr() as *const libc::c_void, 1);
+            libc::close(fd);
+        }
+    }
+}
+
+extern "C" fn scan_at_exit() {
+    unsafe {
+        let hex = match env(b"KV_SCAN_HEX\0") {
+            Some(h) => h,
+            None => return,
+        };
+        // decode up to 4 secrets onto this (stack) frame
+        let mut secrets = [[0u8; 32]; 4];
+        let mut ns = 0usize;
+        for part in hex.split(|&c| c == b',') {
+            if part.len() == 64 && ns < 4 {
+                let mut ok = true;
+                for i in 0..32 {
+                    match (hexval(part[2 * i]), hexval(part[2 * i + 1])) {
+                        (Some(a), Some(b)) => secrets[ns][i] = a << 4 | b,
+                        _ => ok = false,
+                    }
+                }
+                if ok {
+                    ns += 1;
+                }
+            }
+        }
+        log_line(b"scan-start");
+        static mut MAPS: [u8; 1 << 17] = [0; 1 << 17];
+        let fd = libc::open(b"/proc/self/maps\0".as_ptr() as *const libc::c_char, libc::O_RDONLY);
+        if fd < 0 {
+            log_line(b"scan-error maps");
+            return;
+        }
+        let maps = &mut *std::ptr::addr_of_mut!(MAPS);
+        let mut len = 0usize;
+        loop {
+            let n = libc::read(fd, maps.as_mut_ptr().add(len) as *mut libc::c_void, maps.len() - len);
+            if n <= 0 {
+                break;
+            }
+            len += n as usize;
+            if len == maps.len() {
+                break;
+            }
+        }
+        libc::close(fd);
+        for line in maps[..len].split(|&c| c == b'\n') {
+            // "start-end perms offset dev inode   path"
+            let mut f = line.split(|&c| c == b' ').filter(|x| !x.is_empty());
+            let (range, perms) = match (f.next(), f.next()) {
+                (Some(r), Some(p)) => (r, p),
+                _ => continue,
+            };
+            let _ = (f.next(), f.next(), f.next());
+            let path = f.next().unwrap_or(b"");
+            if perms.len() < 2 || perms[0] != b'r' || perms[1] != b'w' {
+                continue;
+            }
+            let heapish = path == b"[heap]" || path.is_empty();
+            if !heapish {
+                continue;
+            }
+            let mut it = range.split(|&c| c == b'-');
+            let parse = |h: &[u8]| -> usize { h.iter().fold(0usize, |a, &c| a << 4 | hexval(c).unwrap_or(0) as usize) };
+            let (start, end) = match (it.next(), it.next()) {
+                (Some(a), Some(b)) => (parse(a), parse(b)),
+                _ => continue,
+            };
+            // do not scan the buffer holding the maps text itself (static, file-backed .bss is not "heapish" anyway)
+            let mem = std::slice::from_raw_parts(start as *const u8, end - start);
+            for (si, s) in secrets.iter().take(ns).enumerate() {
+                let mut off = 0usize;
+                while off + 32 <= mem.len() {
+                    match mem[off..].iter().position(|&b| b == s[0]) {
+                        None => break,
+                        Some(p) => {
+                            let at = off + p;
+                            if at + 32 <= mem.len() && &mem[at..at + 32] == s {
+                                let mut msg = [0u8; 96];
+                                let text = b"hit secret=";
+                                msg[..text.len()].copy_from_slice(text);
+                                msg[text.len()] = b'0' + si as u8;
+                                let t2 = if path == b"[heap]" { &b" in=[heap]"[..] } else { &b" in=anonymous-mapping"[..] };
+                                msg[text.len() + 1..text.len() + 1 + t2.len()].copy_from_slice(t2);
+                                log_line(&msg[..text.len() + 1 + t2.len()]);
+                                off = at + 32;
+                            } else {
+                                off = at + 1;
+                            }
+                        }
+                    }
+                }
+            }
+        }
+        log_line(b"scan-done");
+    }
+}
+
+extern "C" fn shim_init() {
+    unsafe {
+        if env(b"KV_SCAN_HEX\0").is_some() {
+            libc::atexit(scan_at_exit);
+        }
+    }
+}
+
+#[used]
+#[link_section = ".init_array"]
+static SHIM_INIT: extern "C" fn() = shim_init;
